@@ -1,14 +1,156 @@
 /-
 C17 property theorems. Only statements of the property + non-vacuity examples live here;
 helper lemmas are in Lemmas*.lean.
+
+Setting: a block tree is given by a parent list `ps` (`Spec.parentOf ps`: node 0 is the root, node
+`i+1` has parent `ps[i] ≤ i`; `Lemmas.ValidFrom 1 ps` states exactly that, and every finite rooted
+tree has such a numbering — creation order).  `build ps` is the block index the code builds for
+that tree (`newBlockNode` per node, skip pointers computed by `Ancestor` on the parent).  The naive
+answers are the `Spec.*` walks over `Spec.parentOf ps`.
 -/
-import BV.C17.Lemmas
+import BV.C17.LemmasSetTip
 import BV.Generated.C17
 namespace BV.C17
-open Spec
+open Spec Lemmas
 
-/-- the skip height is strictly below the node's height: the measure that makes `Ancestor` terminate -/
+/-! ### skip-list ancestor -/
+
+/-- the skip height is strictly below the node's height: the measure that makes `Ancestor`
+    terminate (its loop is run with fuel `height+1`, which the next theorem shows is never exhausted) -/
 theorem getAncestorHeight_lt (h : Nat) (hp : 0 < h) : getAncestorHeight h < h :=
   Lemmas.getAncestorHeight_lt h hp
+
+/-- node heights computed by `newBlockNode` are the naive depths -/
+theorem height_eq_depth (ps : List Nat) (hv : ValidFrom 1 ps) (n : Nat) (hn : n ≤ ps.length) :
+    (build ps).height n = depth (parentOf ps) n := by
+  obtain ⟨wf, hs⟩ := wf_build ps hv
+  rw [← parent_build, depth_eq wf n (by omega)]
+
+/-- `Ancestor(h)` through the skip pointers = the naive parent walk, for every tree, node and
+    height argument (negative and beyond-height give nil) -/
+theorem ancestor_eq_walk (ps : List Nat) (hv : ValidFrom 1 ps) (n : Nat) (hn : n ≤ ps.length) (h : Int) :
+    ancestor (build ps) n h = ancestorAt (parentOf ps) n h := by
+  obtain ⟨wf, hs⟩ := wf_build ps hv
+  rw [← parent_build]; exact ancestor_eq_spec wf n (by omega) h
+
+/-- out-of-range heights -/
+theorem ancestor_out_of_range (ps : List Nat) (n : Nat) (h : Int)
+    (hr : h < 0 ∨ h > (build ps).height n) : ancestor (build ps) n h = none := by
+  simp [ancestor, hr]
+
+/-- the stored skip pointer of every non-root node is its ancestor at `getAncestorHeight height` -/
+theorem skip_pointer_eq (ps : List Nat) (hv : ValidFrom 1 ps) (n : Nat) (hn : n ≤ ps.length)
+    (nd : Node) (hnd : (build ps)[n]? = some nd) (hroot : nd.parent ≠ none) :
+    nd.ancestor = ancestorAt (parentOf ps) n (getAncestorHeight nd.height) := by
+  obtain ⟨wf, hs⟩ := wf_build ps hv
+  have hlt := Lemmas.getAncestorHeight_lt nd.height (by
+    cases hp : nd.parent with
+    | none => exact absurd hp hroot
+    | some p => have := (wf.par n nd p hnd hp).2; omega)
+  rw [wf.skip n nd hnd hroot, ← parent_build, ← ancestor_eq_spec wf n (by omega),
+    Lemmas.ancestor_eq_walk wf n (by omega), height_of hnd]
+  have : ¬ (((getAncestorHeight nd.height : Nat) : Int) < 0 ∨
+      ((getAncestorHeight nd.height : Nat) : Int) > nd.height) := by omega
+  simp only [this, if_false, Int.toNat_natCast]
+
+/-- `RelativeAncestor(d)` = naive ancestor at `depth − d` -/
+theorem relativeAncestor_eq (ps : List Nat) (hv : ValidFrom 1 ps) (n : Nat) (hn : n ≤ ps.length) (d : Int) :
+    relativeAncestor (build ps) n d = ancestorAt (parentOf ps) n ((depth (parentOf ps) n : Int) - d) := by
+  unfold relativeAncestor
+  rw [ancestor_eq_walk ps hv n hn, height_eq_depth ps hv n hn]
+
+/-- `IsAncestor(other)` = `other` is a strict ancestor in the naive walk (false for nil) -/
+theorem isAncestor_eq (ps : List Nat) (hv : ValidFrom 1 ps) (n o : Nat) (hn : n ≤ ps.length) :
+    isAncestor (build ps) n (some o) = isStrictAncestor (parentOf ps) n o ∧
+    isAncestor (build ps) n none = false := by
+  obtain ⟨wf, hs⟩ := wf_build ps hv
+  refine ⟨?_, rfl⟩
+  rw [← parent_build]; exact isAncestor_eq_spec wf n o (by omega)
+
+example : ValidFrom 1 [0, 1, 1, 3, 0] := by decide
+
+/-! ### chain view -/
+
+/-- the slice a `chainView` holds after any sequence of `setTip` calls: empty after `setTip(nil)`
+    (or no call), otherwise exactly the root-to-tip parent walk of the last tip -/
+theorem setTip_eq_path (ps : List Nat) (hv : ValidFrom 1 ps) (tips : List (Option Nat))
+    (ht : ∀ t ∈ tips, ∀ n, t = some n → n ≤ ps.length) :
+    tips.foldl (setTip (build ps)) [] =
+      match tips.getLast? with
+      | some (some t) => (pathDown (parentOf ps) t).map some
+      | _ => [] := by
+  obtain ⟨wf, hs⟩ := wf_build ps hv
+  rw [← parent_build]
+  have gen : ∀ (tips : List (Option Nat)) (v : View), Coherent (build ps) v →
+      (∀ t ∈ tips, ∀ n, t = some n → n ≤ ps.length) →
+      tips.foldl (setTip (build ps)) v =
+        match tips.getLast? with
+        | some (some t) => (pathDown (build ps).parent t).map some
+        | some none => []
+        | none => v := by
+    intro tips
+    induction tips with
+    | nil => intro v _ _; rfl
+    | cons t rest ih =>
+      intro v hc hr
+      simp only [List.foldl_cons]
+      have hc' : Coherent (build ps) (setTip (build ps) v t) := by
+        cases t with
+        | none => exact coherent_nil _
+        | some n =>
+          have hn := hr (some n) (by simp) n rfl
+          rw [setTip_coherent wf v hc n (by omega)]
+          exact coherent_pathView wf n (by omega)
+      rw [ih _ hc' (fun t' ht' => hr t' (by simp [ht']))]
+      cases hl : rest.getLast? with
+      | some x => simp only [List.getLast?_cons, hl, Option.getD_some]; cases x <;> rfl
+      | none =>
+        have : rest = [] := by simpa using hl
+        subst this
+        cases t with
+        | none => rfl
+        | some n =>
+          have hn := hr (some n) (by simp) n rfl
+          simp only [List.getLast?_singleton]
+          exact setTip_coherent wf v hc n (by omega)
+  have := gen tips [] (coherent_nil _) ht
+  rw [this]
+  cases tips.getLast? with
+  | none => rfl
+  | some x => cases x <;> rfl
+
+/-- on the view of tip `t`: `nodeByHeight`, `contains` (main-chain membership), `next`, tip,
+    genesis and height are the naive answers -/
+theorem view_queries_eq (ps : List Nat) (hv : ValidFrom 1 ps) (t : Nat) (ht : t ≤ ps.length) :
+    let idx := build ps
+    let P := parentOf ps
+    let v : View := (pathDown P t).map some
+    (∀ h : Int, v.nodeByHeight h = ancestorAt P t h) ∧
+    (∀ n, v.contains idx n = (pathUp P t).contains n) ∧
+    (∀ n, v.next idx (some n) =
+      if (pathUp P t).contains n then ancestorAt P t ((idx.height n : Int) + 1) else none) ∧
+    v.next idx none = none ∧
+    v.tip = some t ∧ v.genesis = ancestorAt P t 0 ∧ v.height = depth P t := by
+  obtain ⟨wf, hs⟩ := wf_build ps hv
+  have hts : t < (build ps).size := by omega
+  simp only []
+  rw [← parent_build]
+  refine ⟨fun h => nodeByHeight_pathView wf t hts h, fun n => contains_pathView wf t n hts,
+    fun n => next_pathView wf t n hts, rfl, tip_pathView wf t hts, genesis_pathView wf t hts, ?_⟩
+  have := pathView_length wf t hts
+  unfold pathView at this
+  unfold View.height
+  rw [this, depth_eq wf t hts]; omega
+
+/-- `findFork(n)` on the view of tip `t` = the first node of `n`'s parent walk that lies on `t`'s
+    parent walk (the lowest common ancestor); nil for nil -/
+theorem findFork_eq_lca (ps : List Nat) (hv : ValidFrom 1 ps) (t n : Nat)
+    (ht : t ≤ ps.length) (hn : n ≤ ps.length) :
+    findFork (build ps) ((pathDown (parentOf ps) t).map some) (some n) = lca (parentOf ps) t n ∧
+    findFork (build ps) ((pathDown (parentOf ps) t).map some) none = none := by
+  obtain ⟨wf, hs⟩ := wf_build ps hv
+  refine ⟨?_, rfl⟩
+  rw [← parent_build]
+  exact Lemmas.findFork_eq_lca wf t n (by omega) (by omega)
 
 end BV.C17
